@@ -378,3 +378,40 @@ func vpModel_strings_TrimPrefix(s, prefix string) string {
 	}
 	return s
 }
+
+type vpFileInfo struct {
+	name string
+	size int64
+	dir  bool
+}
+
+func (i vpFileInfo) Name() string       { return i.name }
+func (i vpFileInfo) Size() int64        { return i.size }
+func (i vpFileInfo) Mode() fs.FileMode  { return 0o600 }
+func (i vpFileInfo) ModTime() time.Time { return time.Time{} }
+func (i vpFileInfo) IsDir() bool        { return i.dir }
+func (i vpFileInfo) Sys() any           { return nil }
+
+func vpModel_os_Stat(name string) (os.FileInfo, error) {
+	m := vpFS
+	if name == m.root {
+		return vpFileInfo{name: name, dir: true}, nil
+	}
+	ino, ok := m.dir[m.base(name)]
+	if !ok {
+		return nil, vpErrNotExist
+	}
+	return vpFileInfo{name: m.base(name), size: int64(len(ino.data))}, nil
+}
+func vpModel_os_Lstat(name string) (os.FileInfo, error) { return vpModel_os_Stat(name) }
+
+func vpModelM_os_File_Stat(f *os.File) (os.FileInfo, error) {
+	fd := vpFDOf(f)
+	if fd == nil || fd.closed {
+		return nil, fs.ErrClosed
+	}
+	if fd.isDir {
+		return vpFileInfo{name: fd.name, dir: true}, nil
+	}
+	return vpFileInfo{name: fd.name, size: int64(len(fd.ino.data))}, nil
+}
